@@ -620,8 +620,9 @@ class StageWrapper:
         else:
             martian.throw("Invalid run type %s" % self._run_type)
 
-        # Write the output as JSON.
-        self.metadata.write(b"outs", outs.items())
+        # Write the output as JSON.  (Not outs.items(): an output parameter
+        # which is itself called "items" replaces that attribute.)
+        self.metadata.write(b"outs", martian.Record.items(outs))
 
 
 #################################################
